@@ -6,6 +6,9 @@
 //              -> "<desc> <truth>"   desc = NP | NE | V n <dec> | V i <dec of the same bits> | V r <16 HEX>
 //     mode m : Template::Render("{math:" + units + "}")                 -> "M <units of the output>"
 //     mode i : Template::Render("<if case=\"" + units + "\">T<else />F</if>") -> "I <units of the output>"
+//     mode q : Template::Render("{if case=\"" + units + "\" true=\"T\" false=\"F\"}") -> "Q <units of the output>"  (round e; harness only)
+//     mode q : Template::Render("{if case=\"" + units + "\" true=\"T\" false=\"F\"}") -> "Q <units of the output>"
+//              (round e: inline-if entry point; run on the harness only, expected text from the oracle)
 //   expfmt <16hex>  -> "X <units>" of Digit::NumberToString(stream, double, {TemplatePrecision, TEMPLATE_DOUBLE_FORMAT})
 //                      (exactly the call renderMath makes for a RealNumber result)
 //   <vars> : "-" or ';'-separated name=K : n<dec> i<dec> r<16hex> t f z s<u.u.u> s o
@@ -194,6 +197,7 @@ int main() {
         if (t[1] == "p") vh::emit(modeP(u, value));
         else if (t[1] == "m") vh::emit(renderFramed("{math:", u, "}", value, "M"));
         else if (t[1] == "i") vh::emit(renderFramed("<if case=\"", u, "\">T<else />F</if>", value, "I"));
+        else if (t[1] == "q") vh::emit(renderFramed("{if case=\"", u, "\" true=\"T\" false=\"F\"}", value, "Q"));
         else vh::emit("bad-op");
     }
     return 0;
